@@ -189,7 +189,14 @@ class DrawTr:
             raise Unsupported(f"{ty} where {expected} expected")
 
     def boolean(self, n):
+        """An expression in a boolean context (Python truthiness of optionals and optional lists)."""
         a, ty = self.ex(n)
+        if ty in ("StH?", "OccH?", "Unit?"):
+            return f"{a}.isSome"
+        if ty == "IntList?":
+            return f"(!({a}.getD []).isEmpty)"
+        if ty in ("StH", "OccH"):
+            return "true"
         self.want(ty, "Bool")
         return a
 
